@@ -590,7 +590,7 @@ func specMapped(m *mappedFile) bool {
 //@   requires forall i int :: 0 <= i && i < len(c.stacks) && c.stacks[i].counter != nil ==> c.stacks[i].counter.file != nil
 //@   loop 1: invariant -1 <= rangeindex && rangeindex < len(c.stacks)
 //@   loop 1: decreases len(c.stacks)-rangeindex
-//@   modifies heap, $ledger, $lost, $refreshed, $touched
+//@   modifies heap, $ledger, $lost, $refreshed, $touched, $nopath
 
 // ---------------------------------------------------------------------------
 // C09: the week a counter file covers.
